@@ -22,10 +22,17 @@ CFG = dict(
         "a failed insert, IncreaseTs, Compact/Close/Open folder choice and TIMESTAMP file",
         "abstracted (covered by the correspondence run only): pointers/copy-on-write (nodes and snapshots are values), "
         "the history log (a leaf value carries the blocks its hOff chain denotes; block 0 of the log is a parameter), "
-        "node/commit-entry serialisation, checksums, cache eviction, file rotation, cleanup/discard of old node data, fsync",
+        "node/commit-entry serialisation, checksums, cache eviction, file rotation, cleanup/discard of old node data, fsync "
+        "(temp dirs live on /dev/shm when present, else os.MkdirTemp default)",
         "the Go oracle harness/c10/oracle.go restates coq/Index/MVMap.v by hand (direct falsifier)",
     ],
     assumptions=[
+        "theorem premises: MaxNodeSize >= requiredNodeSize(MaxKeySize, MaxValueSize) (cfg_ok, enforced by Options.Validate); "
+        "keys handed to BulkInsert are byte strings (ops_bytes_ok, always true of Go []byte) for the declarative reader "
+        "spec; GetBetween/ReadBetween are covered only when the key has a version not newer than finalTs (or finalTs = 0, "
+        "empty window, absent key) and history counts are below 2^64 (between_ok/mode_ok) -- otherwise see the known finding",
+        "node timestamps (Ts(), the ts a snapshot reports) are compared by the correspondence run and the Go oracle on every "
+        "case but are related to the map by theorems only through snapshot_not_older_than_requested",
         "each critical section of tbtree (rwmutex) executes atomically as one model step; concurrent readers on snapshots "
         "are exercised by the harness (goroutines reading while the writer proceeds) but not modelled as interleavings",
         "a snapshot is identified by the harness with the state the tree had at the logical time Snapshot.Ts() reports",
